@@ -1,6 +1,7 @@
 import MtailVerif.Proofs.Gc
 import MtailVerif.Props.C09
 import MtailVerif.Generated.Gc
+import MtailVerif.Proofs.Skeletons
 /-! # C10 — Garbage collection removes exactly the expired and over-limit data -/
 namespace MtailVerif.C10
 open MtailVerif MtailVerif.Metric MtailVerif.Gc
@@ -251,5 +252,11 @@ theorem gc_at_most_limit (tm : V → Int) (now limit : Int) (s : Spec V) (hl : l
 /-- non-vacuity: limit 2 over three entries (times 5,1,9), then one expired entry -/
 example : ((Spec.gc (fun v : Int × Int => v.2) 100 2
     [⟨[[97]], (0, 5), 0⟩, ⟨[[98]], (0, 1), 0⟩, ⟨[[99]], (0, 9), 10⟩]).map (·.labels)) = [[[97]]] := by decide
+
+/-! ### regenerated control skeletons (written by lib/wire_skeletons.py) -/
+/-- Obligations over regenerated facts: the functions this property's model stands for have the
+    control skeleton the model was written against (`Proofs/Skeletons.lean`, one `rfl` per function
+    or clause; DESIGN.md §11.6a) -/
+theorem metric_skeletons : Skeletons.MetricShape := Skeletons.metric_shape
 
 end MtailVerif.C10
